@@ -554,6 +554,9 @@ bool aiounicast_select::Send
 				std::cerr << "aiounicast_select(" << j << "):" <<
 					" IV send timeout for " << i_in << std::endl;
 				delete [] buf;
+				// the cipher has advanced and the IV may be incomplete on the wire:
+				// the link is out of step, refuse further output on it
+				fd_out.erase(i_in);
 				return false;
 			}
 			else
@@ -658,6 +661,11 @@ bool aiounicast_select::Send
 	{
 		std::cerr << "aiounicast_select(" << j << "):" <<
 			" send timeout for " << i_in << std::endl;
+		// an incomplete line on the wire, or cipher, MAC or sequence number
+		// already advanced for a message that was not sent: the link is out
+		// of step, refuse further output on it instead of corrupting it
+		if ((realnum > 0) || aio_is_encrypted || aio_is_authenticated)
+			fd_out.erase(i_in);
 		return false;
 	}
 	if (aio_is_authenticated)
@@ -738,6 +746,7 @@ bool aiounicast_select::Send
 		{
 			std::cerr << "aiounicast_select(" << j << "):" <<
 				" MAC send timeout for " << i_in << std::endl;
+			fd_out.erase(i_in); // line without its complete tag on the wire
 			return false;
 		}
 	}
